@@ -1,7 +1,7 @@
 (* C18: copy = deepcopy (modelled) + label iteration + keyword overrides. *)
 From Coq Require Import List Bool Arith PeanoNat Lia.
 From MV Require Import Model.ForestModel Model.ForestExec Model.CopyModel
-  Proofs.ForestInv Proofs.ForestBase Proofs.ForestStep Proofs.ForestCopy Proofs.CopyBase.
+  Proofs.ForestInv Proofs.ForestBase Proofs.ForestStep Proofs.ForestCopy Proofs.ForestMain Proofs.CopyBase.
 Import ListNotations.
 
 (* what reading an object shows depends on its record and on its own cells only *)
@@ -402,3 +402,19 @@ Proof.
   - rewrite (pf_clone s x _ HP o So No). split; reflexivity.
 Qed.
 
+
+(* ---------------------------------------------------------------- a concrete well-formed world *)
+Definition ex_world : cstate :=
+  crun cinit [CNew KSensor [5; 6] 1 9 (Some (1, 0)); CNew KColl [1; 2] 0 0 None;
+              CTree (Add 1 [0] false)].
+
+Lemma ex_world_wf : WF ex_world /\ live (fs ex_world) 1 = true /\
+  in_subtree (fs ex_world) 1 0 = true /\ skw_pending (cget ex_world 0) = true.
+Proof.
+  split; [|vm_compute; auto]. split; [|split].
+  - change (fs ex_world) with (run repaired [] [NewObj KSensor; NewObj KColl; Add 1 [0] false]).
+    apply ForestMain.inv_reachable.
+  - reflexivity.
+  - intros i c Hc. assert (E : length (heap ex_world) = 6) by reflexivity. rewrite E.
+    destruct i as [|[|[|i]]]; vm_compute in Hc; intuition lia.
+Qed.
